@@ -21,7 +21,8 @@ theorem chained_cons (d : Nat) (p : Nat × Nat) (l : List (Nat × Nat)) (h : Cha
   | nil => simpa [Chained] using hp
   | cons q rest => exact ⟨hp, hh q rfl, h⟩
 
-theorem step_rinv (c : Cfg) (s s' : St) (e : Ev) (h : RInv c s) (hs : step? c s e = some s') : RInv c s' := by
+theorem step_rinv (c : Cfg) (hlo : ∀ n, c.minDelay ≤ c.lo n) (s s' : St) (e : Ev) (h : RInv c s)
+    (hs : step? c s e = some s') : RInv c s' := by
   unfold step? at hs
   split at hs
   · simp at hs
@@ -80,6 +81,7 @@ theorem step_rinv (c : Cfg) (s s' : St) (e : Ev) (h : RInv c s) (hs : step? c s 
         · rename_i hc
           injection hs with hs; subst hs
           simp only [Bool.and_eq_true, decide_eq_true_eq] at hc
+          have hlon := hlo n
           have hsl := h.sleepAt m since hpc
           refine ⟨?_, ?_, Nat.le_refl _, ?_, ?_, ?_⟩
           · exact chained_cons _ _ _ h.chained (by simp; omega) (by intro q hq; exact h.headLe q hq)
@@ -143,7 +145,8 @@ theorem step_rinv (c : Cfg) (s s' : St) (e : Ev) (h : RInv c s) (hs : step? c s 
             · exact absurd hu (hpc1 · )
             · exact ⟨Or.inr hx, (h.noFact hr).2⟩
 
-theorem run_rinv (c : Cfg) (es : List Ev) (s s' : St) (h : RInv c s) (hr : run? c s es = some s') : RInv c s' := by
+theorem run_rinv (c : Cfg) (hlo : ∀ n, c.minDelay ≤ c.lo n) (es : List Ev) (s s' : St) (h : RInv c s)
+    (hr : run? c s es = some s') : RInv c s' := by
   induction es generalizing s with
   | nil => simp [run?] at hr; subst hr; exact h
   | cons e es ih =>
@@ -152,6 +155,18 @@ theorem run_rinv (c : Cfg) (es : List Ev) (s s' : St) (h : RInv c s) (hr : run? 
     | none => simp [hst] at hr
     | some s1 =>
       simp [hst] at hr
-      exact ih s1 (step_rinv c s s1 e h hst) hr
+      exact ih s1 (step_rinv c hlo s s1 e h hst) hr
+
+/-- `Backoff.lo` never goes below the configured minimum. -/
+theorem backoff_lo_ge_min (b : Backoff) (hle : b.minDelay ≤ b.maxDelay) (n : Nat) : b.minDelay ≤ b.lo n := by
+  unfold Backoff.lo
+  apply Nat.le_min.mpr
+  refine ⟨hle, ?_⟩
+  apply (Nat.le_div_iff_mul_le (Nat.pow_pos (by omega))).mpr
+  exact Nat.mul_le_mul_left _ (Nat.pow_le_pow_left (by omega) n)
+
+theorem ofBackoff_lo (r : Bool) (b : Backoff) (hle : b.minDelay ≤ b.maxDelay) :
+    ∀ n, (Cfg.ofBackoff r b).minDelay ≤ (Cfg.ofBackoff r b).lo n :=
+  fun n => backoff_lo_ge_min b hle n
 
 end Jrpc.Redial
